@@ -52,6 +52,7 @@ class CoreGen:
         rng.shuffle(self.loop_args)
         self.consts = set()
         self.conds = []
+        self.has_code = [0x1000]        # accounts known to have code when this program runs
 
     def count(self, k):
         self.hist[k] = self.hist.get(k, 0) + 1
@@ -130,12 +131,17 @@ class CoreGen:
                  else ["pop", "mstore", "copy", "sstore", "dupswap"])
         if self.callee:
             kinds = [k for k in kinds if k != "loop"]
+        kinds += ["log", "log", "ext", "ext", "ext"]
         if self.targets:
             kinds += ["call", "call", "call"] if d > 0 else ["call"]
         k = r.choice(kinds)
         self.count("stmt:" + k)
         if k == "call":
             return self.call_site()
+        if k == "log":
+            return self.log_stmt()
+        if k == "ext":
+            return self.ext_stmt()
         if k == "sstore":
             op = r.choice(["SSTORE", "SSTORE", "TSTORE"])
             self.count("sto:" + op)
@@ -170,6 +176,46 @@ class CoreGen:
             return (self.cond() + [("ref", els), "JUMPI"] + self.block(d - 1) + [("ref", end), "JUMP", ("label", els)]
                     + self.block(d - 1) + [("label", end)])
         return self.loop()
+
+    def log_stmt(self):
+        """LOG0..LOG4 with plain topics; the data is a memory range (mostly small; rarely around MAX_MEMORY_SIZE)"""
+        r = self.rng
+        n = r.choice([0, 1, 1, 2, 3, 4])
+        self.count(f"log:LOG{n}")
+        out = []
+        for _ in range(n):
+            out += self.plain()
+        if self.callee or r.random() < 0.95:
+            size, off = r.choice([0, 1, 32, 32, 33, 64]), r.choice([0, 0, 32, 5, 0x100])
+        else:
+            off, size = r.choice([((1 << 20) - 32, 32), ((1 << 20) - 31, 32), (1 << 30, 0)])
+        return out + [("push", size), ("push", off), f"LOG{n}"]
+
+    def ext_stmt(self):
+        """EXTCODESIZE / CODESIZE stored where the final RETURN shows it, or EXTCODECOPY, on literal addresses: this
+        contract, the callees, accounts without code"""
+        r = self.rng
+        addr = r.choice([0x1000, 0x2000, 0x3000, 0x4000, 5])
+        k = r.random()
+        if k < 0.35:
+            self.count("ext:EXTCODESIZE")
+            self.count("mem:MSTORE")
+            return [("push", addr), "EXTCODESIZE", ("push", r.choice([0, 32, 64, 96])), "MSTORE"]
+        if k < 0.6:
+            self.count("ext:CODESIZE")
+            self.count("mem:MSTORE")
+            return ["CODESIZE", ("push", r.choice([0, 32, 64, 96])), "MSTORE"]
+        self.count("ext:EXTCODECOPY")
+        size = r.choice([0, 1, 4, 32, 36, 64])
+        off = r.choice([0, 0, 1, 3, 4, 36, 100, 1 << 30])
+        loc = r.choice(MEMOFF) if r.random() < 0.3 else r.choice([0, 32, 64, 96])
+        out = []
+        if r.random() < 0.6:
+            # a dirty destination: every byte the copy must overwrite (code bytes or zero padding) is visible
+            self.count("mem:MSTORE")
+            for k in range((size + 31) // 32):
+                out += [("push", (1 << 256) - 1), ("push", loc + 32 * k), "MSTORE"]
+        return out + [("push", size), ("push", off), ("push", loc), ("push", addr), "EXTCODECOPY"]
 
     def loop(self, body=None):
         # the counter lives on the stack; a symbolic trip count uses an argument no other loop counts on
@@ -247,6 +293,10 @@ class CoreGen:
                 items += ["CALLER", ("push", 3), "SSTORE"]
             if r.random() < 0.3:
                 items += ["CALLVALUE", ("push", 2), "TSTORE"]
+            if r.random() < 0.5:
+                # an event of the callee: emitted by address(this), rolled back if the frame fails, refused if static
+                self.count("log:LOG1")
+                items += ["CALLER", ("push", r.choice([0, 32, 64])), ("push", 0), "LOG1"]
             self.count("callee:" + "RETURN")
             return items + [("push", r.choice([64, 96])), ("push", 0), r.choice(["RETURN", "RETURN", "REVERT"])]
         if r.random() < 0.8:
@@ -256,6 +306,7 @@ class CoreGen:
                 ["CALLER", ("push", 0), "MSTORE"], ["ADDRESS", ("push", 32), "MSTORE"], ["CALLVALUE", ("push", 0), "MSTORE"],
                 ["CALLER", ("push", 3), "SSTORE"], ["ADDRESS", ("push", 2), "TSTORE"], [("push", 7), ("push", 1), "SSTORE"],
                 ["CALLDATASIZE", ("push", 32), "MSTORE"], ["CALLER", ("push", 32), "MSTORE"],
+                [("push", 9), ("push", 32), ("push", 0), "LOG1"], ["ADDRESS", "CALLER", ("push", 0), ("push", 0), "LOG2"],
             ]
             for probe in r.sample(probes, r.choice([1, 1, 2, 3])):
                 items += probe
@@ -433,6 +484,27 @@ def _storage(pe, ex):
     return "".join(out)
 
 
+def _logs(pe, ex):
+    """the world's log as the EVM would have it: the events of the top frame and, recursively and in order, of the
+    subcalls that did not fail (halmos keeps the events of failed subcalls in the trace: presentation only)"""
+    from halmos.sevm import CallContext, EventLog
+    out = []
+
+    def walk(ctx):
+        for t in ctx.trace:
+            if isinstance(t, EventLog):
+                a = t.address
+                a = a.as_long() if hasattr(a, "as_long") else int(pe.word(a))
+                topics = ",".join(f"{int(pe.word(x)):x}" for x in t.topics)
+                data = pe.bytes_of(t.data) if t.data is not None else b""
+                out.append(f"L{a:x}[{topics}]{(data or b'').hex()};")
+            elif isinstance(t, CallContext) and t.output.error is None and t.output.data is not None:
+                walk(t)
+
+    walk(ex.context)
+    return "".join(out)
+
+
 def impl_eval(sr, inputs):
     """the end states of the real run whose path conditions `inputs` satisfies, with their data evaluated (vlib.zeval)"""
     out = []
@@ -441,7 +513,7 @@ def impl_eval(sr, inputs):
         if not pe.satisfies(p.conds):
             continue
         data = pe.bytes_of(p.data) if p.data is not None else b""
-        out.append(f"{_kind(p)}@{p.ex.pc}:{(data or b'').hex()}:{_storage(pe, p.ex)}")
+        out.append(f"{_kind(p)}@{p.ex.pc}:{(data or b'').hex()}:{_storage(pe, p.ex)}{_logs(pe, p.ex)}")
     return "sat=" + (",".join(sorted(out)) if out else "-")
 
 
@@ -485,16 +557,19 @@ def compare_core(ctx, n):
             if rng.random() < 0.65:
                 # one or two callee contracts; 0x2000 may call 0x3000; the program under test may call both
                 g3 = CoreGen(rng, 2, callee=True)
+                g3.has_code = [0x1000, 0x3000]
                 callees[0x3000] = asm.assemble(g3.callee_program())
                 hists = [g3.hist]
                 if rng.random() < 0.6:
                     g2 = CoreGen(rng, 2, callee=True, targets=[0x3000])
+                    g2.has_code = [0x1000, 0x2000, 0x3000]
                     callees[0x2000] = asm.assemble(g2.callee_program())
                     hists.append(g2.hist)
                 for h in hists:
                     for k, v in h.items():
                         ctx.count("core:callee:" + k, v)
             g = CoreGen(rng, nargs, targets=sorted(callees))
+            g.has_code = [0x1000] + sorted(callees)
             code = asm.assemble(g.program())
         except asm.AsmError:
             continue
